@@ -239,6 +239,25 @@ def declarations(facts_path):
     return out
 
 
+def source_hash(repo=None):
+    """Hash of /repo's sources alone (not of the driver): identifies the reviewed tree itself."""
+    repo = repo or build.REPO
+    h = hashlib.sha256()
+    for root, dirs, fs in os.walk(os.path.join(repo, "src")):
+        dirs.sort()
+        for f in sorted(fs):
+            p = os.path.join(root, f)
+            h.update(os.path.relpath(p, repo).encode() + b"\0")
+            with open(p, "rb") as fh:
+                h.update(fh.read())
+    for f in ("Cargo.toml", "Cargo.lock"):
+        p = os.path.join(repo, f)
+        if os.path.exists(p):
+            with open(p, "rb") as fh:
+                h.update(fh.read())
+    return h.hexdigest()[:20]
+
+
 def manifest_hash(repo=None):
     repo = repo or build.REPO
     h = hashlib.sha256()
@@ -275,6 +294,11 @@ def compare(cfg, repo=None):
     head = table.get(cfg)
     if head is None:
         return {"equivalent": False, "reason": "no table for config " + cfg}
+    if os.environ.get("VERIF_NO_EQUIV"):
+        return {"equivalent": False, "reason": "switched off (VERIF_NO_EQUIV)"}
+    if table.get("reviewed_tree") == source_hash(repo):
+        # the reviewed tree itself: every rule has to hold on it as written — no help from here
+        return {"equivalent": False, "reason": "this is the reviewed tree itself; rules must hold as written"}
     cur = snapshot(cfg, repo)
     hf, cf = head["functions"], cur["functions"]
     changed = sorted(n for n in cf if n in hf and cf[n] != hf[n])
@@ -301,7 +325,7 @@ def _private(side, name):
 
 
 def write_table(cfgs=("B", "C", "A")):
-    table = {}
+    table = {"reviewed_tree": source_hash()}
     for c in cfgs:
         table[c] = snapshot(c)
     with open(TABLE, "w") as fh:
